@@ -35,13 +35,21 @@ LAYOUTS = {
     "blank_in_handler": ["try:", "    pass", "except Exception:", "", "    pass"],
     "blank_in_load": ["cfg = yaml.load(", "", "    data,", ")"],
     "et_parse": ["t = xml.etree.cElementTree.parse(", "    src) or xml.etree.ElementTree.parse(src) or subprocess.Popen(c, shell=True)"],
+    # an outer node and the inner node it BEGINS with start at the same (line, column) but end on different lines: the inner call occupies line 1 only, a comment on
+    # the continuation line is outside its span (seeded change C02-m15 cached the comment lookup per start position: the inner call inherited the outer call's lines)
+    "chained_same_start": ["subprocess.Popen(cmd, shell=True).communicate(", "    input=pickle.loads(blob))"],
+    "chained_three": ["subprocess.Popen('ls *', shell=True).communicate(", "    input=pickle.loads(blob),", "    timeout=eval(t))"],
+    "call_of_call_same_start": ["subprocess.Popen(cmd, shell=True)(", "    pickle.loads(blob))"],
+    "subscript_same_start": ["subprocess.Popen(cmd, shell=True)[", "    pickle.loads(blob)]"],
 }
 # the test IDs each layout triggers (for targeted two-comment enumeration)
 LAYOUT_IDS = {"one_line": ["B101", "B602", "B607"], "four_lines": ["B101", "B602", "B607"], "nested_later_line": ["B602", "B607", "B301"],
               "nested_three": ["B602", "B301"], "password_kw": ["B106", "B104"], "call_stmt": ["B602", "B607"], "str_in_dict": ["B105", "B108"],
               "et_parse": ["B313", "B314", "B602"], "hash_md5": ["B324", "B602"], "snmp": ["B508", "B509", "B602"],
               "bidi": ["B613"], "def_defaults": ["B104", "B108"], "lambda_default": ["B104", "B108"],
-              "blank_inside": ["B602", "B607"], "blank_in_handler": ["B110"], "blank_in_load": ["B506"]}
+              "blank_inside": ["B602", "B607"], "blank_in_handler": ["B110"], "blank_in_load": ["B506"],
+              "chained_same_start": ["B602", "B301"], "chained_three": ["B602", "B607", "B301", "B307"], "call_of_call_same_start": ["B602", "B301"],
+              "subscript_same_start": ["B602", "B301"]}
 PRELUDE = ["import subprocess", "import pickle"]
 
 TESTS_TEXTS = [
@@ -339,6 +347,44 @@ def _run_props(res, ctx):
                                       {"program": src, "comments": comments, "selection": {k: sorted(v) for k, v in prof.items()}, "finding": list(f), "covered_by_spec": covered, "withheld_by_impl": f in withheld})
     finally:
         scratch2.close()
+    # ---- the counters of a whole RUN: programs with nosec comments scanned as directory targets given in different spellings (relative names that begin with `_`, `.`,
+    #      a nested path, `./x`, an absolute path), alone and together — `_totals.nosec + _totals.skipped_tests` equals the number of findings the comments withheld
+    #      (= findings with --ignore-nosec minus findings without); seeded change C02-m16 left every metrics block whose key starts with `_` out of the totals
+    import json as _json, os as _os
+    scratch3 = C.Scratch()
+    try:
+        with_comments = [p for p in progs if p[1]]
+        picks = with_comments[:: max(1, len(with_comments) // 12)][:12]
+        root3 = _os.path.join(scratch3.root, "targets"); _os.makedirs(root3)
+        dirs3 = ["_vendor", "__generated__", ".hidden_pkg", "pkg/_private", "plain"]
+        for di, dname in enumerate(dirs3):
+            _os.makedirs(_os.path.join(root3, dname), exist_ok=True)
+            for k, (src, _c, _m) in enumerate(picks[di::len(dirs3)] or picks[:1]):
+                open(_os.path.join(root3, dname, "_m%d.py" % k if k % 2 else "m%d.py" % k), "w").write(src)
+        target_sets = [[d] for d in dirs3] + [["./" + dirs3[0]], [_os.path.join(root3, dirs3[0])], ["_vendor", "plain"], list(dirs3)]
+        for ts in target_sets:
+            outs = {}
+            for ign in (False, True):
+                r = C.run_cli(["-r", "-f", "json", "-q"] + (["--ignore-nosec"] if ign else []) + ts, cwd=root3)
+                try:
+                    outs[ign] = _json.loads(r["out"])
+                except Exception:
+                    outs[ign] = None
+            res.case(("run-counters", tuple(ts)), True)
+            res.count("run-counter-target-sets")
+            if outs[False] is None or outs[True] is None:
+                res.violation("no JSON report for a directory target", {"targets": ts})
+                continue
+            withheld_n = len(outs[True]["results"]) - len(outs[False]["results"])
+            tot = outs[False]["metrics"]["_totals"]
+            per_file = {k: v for k, v in outs[False]["metrics"].items() if k != "_totals"}
+            s_files = sum(v["nosec"] + v["skipped_tests"] for v in per_file.values())
+            if tot["nosec"] + tot["skipped_tests"] != withheld_n or s_files != withheld_n:
+                res.violation("the run's nosec + skipped_tests counters differ from the number of findings withheld by nosec comments",
+                              {"targets": ts, "cwd_holds": dirs3, "withheld (ignore-nosec results minus normal results)": withheld_n, "totals": {"nosec": tot["nosec"], "skipped_tests": tot["skipped_tests"]},
+                               "sum_over_files": s_files, "metric_keys": sorted(per_file)[:8]})
+    finally:
+        scratch3.close()
     # parser-level differential: every comment text through _parse_nosec_comment vs model
     if ctx["driver_ok"] and impl_parse is not None:
         d = C.Driver()
